@@ -71,7 +71,14 @@ def input_shape(cfg):
     return (3, 12) if cfg['net'] == 'pit1d' else (3, 6, 6)
 
 
-def build(cfg):
+def wrapper_rng(cfg, inst):
+    """the seed network (initial weights) is the same for every wrapper of a configuration, but each wrapper INSTANCE is
+    constructed at its own position of the global random stream, as after a real restart: whatever a constructor draws
+    (e.g. the private input example made from input_shape) differs between the original and the restored wrapper"""
+    torch.manual_seed(424242 + 1000 * inst + cfg['seed'])
+
+
+def build(cfg, inst=0):
     """fresh wrapper of the same seed network (same torch seed -> same initial weights) with the constructor options of cfg"""
     from plinio.methods import PIT, MPS, SuperNet
     from plinio.methods.mps import MPSType, get_default_qinfo
@@ -81,11 +88,13 @@ def build(cfg):
     if m == 'PIT':
         net = Pit1d(o.get('k', 5), o.get('stride2', False)) if cfg['net'] == 'pit1d' else Net2d(4, o.get('head_bn', False))
         net.train(o.get('seed_training', True))
+        wrapper_rng(cfg, inst)
         return PIT(net, input_shape=input_shape(cfg), cost={'params': params, 'ops': ops}, discrete_cost=o.get('discrete_cost', False),
                    fold_bn=o.get('fold_bn', False), full_cost=o.get('full_cost', False))
     if m == 'MPS':
         net = Net2d(o.get('c', 3), o.get('head_bn', False))
         net.train(o.get('seed_training', True))
+        wrapper_rng(cfg, inst)
         return MPS(net, input_shape=input_shape(cfg), cost={'pbit': params_bit, 'obit': ops_bit},
                    w_search_type=MPSType.PER_CHANNEL if o.get('per_channel') else MPSType.PER_LAYER,
                    qinfo=get_default_qinfo(tuple(o.get('w_prec', (2, 4, 8))), tuple(o.get('a_prec', (2, 4, 8)))),
@@ -94,6 +103,7 @@ def build(cfg):
     if m == 'SN':
         net = Sn2(o.get('gumbel', False), o.get('hard', False))
         net.train(o.get('seed_training', True))
+        wrapper_rng(cfg, inst)
         return SuperNet(net, input_shape=input_shape(cfg), cost={'params': params, 'ops': ops}, full_cost=o.get('full_cost', False))
     raise ValueError(m)
 
@@ -229,6 +239,7 @@ class Runner:
         self.mops = []          # model ops (python tuples)
         self.views = []
         self.key_changes = []
+        self.value_changes = []
         self.obs_exc = []
 
     def x(self, k):
@@ -282,6 +293,7 @@ class Runner:
             W.discrete_cost = op[1]; self.snap(('disc', op[1]))
         elif k == 'obs':     # observer calls inside the history, with their non-default options; never replayed after the restart
             before = sorted(W.state_dict().keys())
+            vbefore = {k: digest(v) for k, v in W.state_dict().items()}
             try:
                 if op[1] == 'export':
                     W.export()
@@ -297,6 +309,10 @@ class Runner:
             except Exception as ex:
                 exc = 'EXC:' + type(ex).__name__
             after = sorted(W.state_dict().keys())
+            vafter = {k: digest(v) for k, v in W.state_dict().items()}
+            chg = sorted(k for k in vbefore if k in vafter and vbefore[k] != vafter[k])
+            if chg:
+                self.value_changes.append({'observer': op[1], 'mode': 'train' if leaf_mode(W) is True else 'eval' if leaf_mode(W) is False else 'mixed', 'changed': chg[:8], 'n': len(chg)})
             if before != after:
                 self.key_changes.append({'observer': op[1], 'lost': sorted(set(before) - set(after))[:6], 'gained': sorted(set(after) - set(before))[:6]})
             if exc:
@@ -464,6 +480,7 @@ def run_case(case):
     W = R.W
     res['mops'], res['views'] = R.mops, R.views
     res['key_changes'], res['obs_exc'] = R.key_changes, R.obs_exc
+    res['value_changes'] = R.value_changes
     res['changed'] = changed_options(W, R.st, cfg)
     sd = copy.deepcopy(W.state_dict())
     res['ckpt_keys'] = sorted(sd.keys())
@@ -477,7 +494,7 @@ def run_case(case):
     restored = {}
     for pr in protos:
         c2 = cfg if pr != 'B' else dict(cfg, opts=dict(cfg['opts'], seed_training=seed_mode))
-        W2 = build(c2)
+        W2 = build(c2, inst=1 + 'ABC'.index(pr))
         if pr == 'C':
             W2.train(seed_mode)
         if 'fresh_keys' not in res:
